@@ -108,9 +108,10 @@ func ibRun(args []string) error {
 		// (consecutive uses of that object meet blocks of equal depth - the sequence is listed twice - and of different depth)
 		{"match", "counter"}, {"match", "counter"}, {"match", "match", "counter"}, {"match", "match", "counter"}, {"counter", "match"}, {"match", "counter", "counter"}}
 	counter := &integrityblock.IntegrityBlockSigner{}
-	sizes := []int{8, 9, 100, 1000, 70000}
+	// 1 MiB and 2 MiB exactly: sizes at which a hashing / copying loop that works in chunks has an empty last chunk
+	sizes := []int{8, 9, 100, 1000, 70000, 1 << 20, 2 << 20}
 	if thorough {
-		sizes = append(sizes, 0, 3, 7, 64, 65536, 300000)
+		sizes = append(sizes, 0, 3, 7, 64, 32768, 65536, 300000, 1<<20-1, 1<<20+1, 4<<20)
 	}
 	for _, kind := range []string{"exact", "exactmagic", "bigger", "smaller", "huge", "random"} {
 		for _, n := range append(sizes, 0, 7) {
@@ -119,6 +120,9 @@ func ibRun(args []string) error {
 					continue
 				}
 				if kind == "exact" && n > 1000 && si > 3 && !thorough {
+					continue
+				}
+				if n >= 1<<20 && (kind != "exact" || si > 0) {
 					continue
 				}
 				id++
